@@ -207,6 +207,10 @@ pub fn mutants(base: &ExecDoc, sch: &Sch) -> Vec<(&'static str, String, ExecDoc)
             ("via-inline-fragment", Sel::Inline { p: p0(), cond: Some(nm("Subscription")), dirs: vec![], sel: selset(vec![Sel::Field { alias: Some(nm("t2")), name: nm("tick"), args: None, dirs: vec![], sel: None }]) }),
             ("via-untyped-inline-fragment", Sel::Inline { p: p0(), cond: None, dirs: vec![], sel: selset(vec![Sel::Field { alias: Some(nm("t2")), name: nm("tick"), args: None, dirs: vec![], sel: None }]) }),
             ("via-fragment-spread", Sel::Spread { p: p0(), name: nm("SubExtra"), dirs: vec![] }),
+            // fragments on an interface the root type implements / a union it belongs to apply to it as well
+            ("via-inline-fragment-on-interface", Sel::Inline { p: p0(), cond: Some(nm("Ticker")), dirs: vec![], sel: selset(vec![Sel::Field { alias: Some(nm("t2")), name: nm("tick"), args: None, dirs: vec![], sel: None }]) }),
+            ("via-inline-fragment-on-union", Sel::Inline { p: p0(), cond: Some(nm("Feed")), dirs: vec![], sel: selset(vec![Sel::Inline { p: p0(), cond: Some(nm("Subscription")), dirs: vec![], sel: selset(vec![Sel::Field { alias: Some(nm("t2")), name: nm("tick"), args: None, dirs: vec![], sel: None }]) }]) }),
+            ("via-fragment-spread-on-interface", Sel::Spread { p: p0(), name: nm("SubExtraI"), dirs: vec![] }),
         ] {
             let mut d = base.clone();
             if let ExecDef::Op { sel, .. } = &mut d.defs[first_op] {
@@ -219,6 +223,9 @@ pub fn mutants(base: &ExecDoc, sch: &Sch) -> Vec<(&'static str, String, ExecDoc)
             }
             if tag == "via-fragment-spread" {
                 d.defs.push(ExecDef::Frag { p: p0(), name: nm("SubExtra"), cond: nm("Subscription"), dirs: vec![], sel: selset(vec![Sel::Field { alias: Some(nm("t3")), name: nm("tick"), args: None, dirs: vec![], sel: None }]) });
+            }
+            if tag == "via-fragment-spread-on-interface" {
+                d.defs.push(ExecDef::Frag { p: p0(), name: nm("SubExtraI"), cond: nm("Ticker"), dirs: vec![], sel: selset(vec![Sel::Field { alias: Some(nm("t3")), name: nm("tick"), args: None, dirs: vec![], sel: None }]) });
             }
             add("sub.single_root", vec![(tag.into(), d)]);
         }
